@@ -160,3 +160,24 @@ fn vk_c16_trap_nested_status() {
     assert!(shell.last_exit_status() == st, "C16.nested.terminating_status_restored_after_outer_handler");
     std::mem::forget(r); std::mem::forget(p); std::mem::forget(shell);
 }
+
+//@proof {'props': ['C16'], 'tier': 'thorough', 'timeout': 1800, 'uses': ['invoke', 'enter_trap', 'leave_trap'], 'bounds': 'outer signal ERR; a command inside the ERR handler ends the shell and fires the EXIT trap (one nested step); statuses symbolic', 'desc': 'nested traps, the other way round: an EXIT handler running inside the ERR handler is balanced and restores $? for the rest of the ERR handler; afterwards $? is the status that triggered ERR'}
+#[kani::proof]
+#[kani::unwind(4)]
+#[kani::stub(std::hash::RandomState::new, crate::vk_prelude::stub_random_state_new)]
+#[kani::stub(std::time::SystemTime::now, crate::vk_prelude::stub_now)]
+fn vk_c16_trap_nested_exit_inside_err() {
+    let mut shell: Sh = crate::Shell::default();
+    let st: u8 = kani::any();
+    shell.set_last_exit_status(st);
+    let mut o = TOracle::new();
+    o.already_active = false; o.registered = true; o.nest = true; o.handler_fails = false; o.entered_signal_ok = false;
+    let p = shell.default_exec_params();
+    let r = t_invoke(&mut shell, TrapSignal::Err, &p, &mut o);
+    kani::cover!(o.nested_runs == 1 && st == 2, "exit_trap_inside_err_trap");
+    assert!(o.runs == 1 && o.nested_runs == 1, "C16.nested.both_handlers_run_once");
+    assert!(o.nested_balanced, "C16.nested.inner_step_balanced_and_restores_status");
+    assert!(o.entered == 1 && o.left == 1, "C18.nested.outer_enter_leave_paired");
+    assert!(shell.last_exit_status() == st, "C16.nested.triggering_status_restored_after_outer_handler");
+    std::mem::forget(r); std::mem::forget(p); std::mem::forget(shell);
+}
